@@ -1,5 +1,11 @@
 //@file src/repr/adjacency_matrix/mod.rs
 // ---- C16: conversions between representations preserve (V, A); invalid sources panic ----
+// Under contract here: AdjacencyMatrix::{from(Dg), from(arcs)}, AdjacencyList::{from(Dg), from(rows), empty} (+ its ArcsIterator::next),
+// EdgeList::{from(Dg), from(arcs)}; round trips as lemmas.  A source of ANOTHER representation is the opaque `Dg` (prelude/dg.rs):
+// the converter only uses `order()` and `arcs()`, whose trait contracts `Dg` carries; `Dg` is NOT assumed well-formed.
+// Not under contract: AdjacencyListWeighted<_>::from(unweighted) (its macro has two parameters `($type:ty, $weight:ty)`, rule E3
+// instantiates single-parameter macros only), AdjacencyListWeighted::from(rows) (its `arcs()` is enumerate + flat_map), all
+// AdjacencyMap targets (no wf-establishing constructor under contract).
 
 /// vertex ids are `usize` by type; the opaque source `Dg` states its arc relation over `int`
 spec fn is_id(a: int) -> bool { 0 <= a <= usize::MAX }
@@ -69,7 +75,7 @@ impl AdjacencyMatrix {
         assert(has_self_loop(iter@)) by { assert(iter@[it1.index()] == (u, v)); }
     @panic 2
         assert(iter@.len() == 0);
-    @before `digraph.add_arc(u, v);`
+    @before `digraph.add_arc(`
         // the documented panics of add_arc cannot occur here
         assert(u != v && u < order && v < order) by { assert(iter@[it2.index()] == (u, v)); }
     @*/
@@ -178,7 +184,7 @@ impl<'a> ArcsIterator<'a> {
         self.rows_left(),
     @loop_start 1
         let ghost s0 = *self;
-    @before `return Some((self.u - 1, v));`
+    @before `return Some((`
         proof {
             let r0 = s0.rem();
             let r1 = self.rem();
@@ -198,7 +204,7 @@ impl<'a> ArcsIterator<'a> {
             }
             assert(s0.pending(self.u - 1, v as int)) by { assert(*r0[0] == v); }
         }
-    @before `if self.u >= self.arcs.len()`
+    @before `if self.u`
         let ghost s1 = *self;
         proof {
             assert(s1.rem().len() == 0);
@@ -211,7 +217,7 @@ impl<'a> ArcsIterator<'a> {
                 assert(s1.pending(a, b) == s0.pending(a, b));
             }
         }
-    @after `self.u += 1;`
+    @after `self.u +=`
         proof {
             broadcast use vstd::laws_cmp::group_laws_cmp;
             assert(vstd::laws_cmp::obeys_cmp::<usize>());
@@ -262,13 +268,12 @@ spec fn rows_kept(g: AdjacencyList, rows: Seq<BTreeSet<usize>>) -> bool {
 }
 
 impl AdjacencyList {
-    /*@fn impl=AdjacencyList trait=From implhas='impl<I> From<I>' name=from subst=I=>Vec<BTreeSet<usize>> drop=I dropwhere=I
+    /*@fn impl=AdjacencyList trait=From implhas='impl<I> From<I>' name=from subst=I=>Vec<BTreeSet<usize>> drop=I dropwhere=I iterinline=arcs=>@literal
     ensures
         r.wf(),
         rows_kept(r, iter@),
         iter@.len() > 0,
         rows_valid(iter@),
-    @manual `for (u, v) in digraph.arcs()` => `let mut arcs_it = ArcsIterator { arcs: &digraph.arcs, u: 0, inner: None }; while let Some((u, v)) = arcs_it.next()` :: E8b (iterinline) needs the iterator-returning method to be `Ctor(self)`; AdjacencyList::arcs is the struct literal `ArcsIterator { arcs: &self.arcs, u: 0, inner: None }`, inlined here by hand
     @loop 1
     invariant
         arcs_it.inv(),
